@@ -11,7 +11,7 @@ DESIGN_REF = "DESIGN.md §9 C02, §12.C02"
 COQ_TARGETS = ["Properties/C02", "Pins/C02"]
 THEOREMS = [("PdfV.Properties.C02", n) for n in
             ["C02_merge_latest", "C02_beyond_size", "C02_stream_roundtrip", "C02_stream_sections_roundtrip",
-             "C02_walk_latest", "C02_stream_no_panic", "C02_stream_bounded", "C02_table_roundtrip", "C02_table_row_20",
+             "C02_walk_latest", "C02_stream_no_panic", "C02_stream_bounded", "C02_table_roundtrip", "C02_table_row_20", "C02_table_total", "C02_locate_xref_total", "C02_lexer_progress",
              "C02_section_roundtrip", "C02_xref_at_section", "C02_walk_latest_tables", "C02_object_at", "C02_locate_startxref", "C02_resolve_latest",
              "C02_merge_older_stream_refuted_before_fix"]]
 ANCHORS = ["backend.rs", "xref.rs", "parse_xref.rs", "lexer/mod.rs"]
